@@ -1,6 +1,6 @@
 (* C06 — relay connection registry: newest connection wins, older ones resume.
    Executable model of iroh-relay/src/server/clients.rs (Clients::register,
-   unregister, send_packet, disconnect) and the parts of the per-connection
+   unregister, send_packet, disconnect, shutdown) and the parts of the per-connection
    actor in server/client.rs that touch it.  Definitions only.
 
    The model is an interleaving transition system: one [event] per atomic step
@@ -47,20 +47,22 @@ Record conn := mkConn {
   cancelled : bool;   (* Client::done token cancelled (start_shutdown) *)
   closed : bool;      (* the client end closed its side *)
   inserted : bool;    (* register's map update has happened for it *)
+  taken : bool;       (* Clients::shutdown has taken the entry that held it out of the map *)
   pq : list frame;    (* packet_queue contents  (bounded mpsc, capacity cap) *)
   mq : list frame;    (* message_queue contents (bounded mpsc, capacity cap) *)
   got : list frame    (* frames written to the client, in order *)
 }.
-Definition conn0 : conn := mkConn 0 0 Fresh false false false [] [] [].
+Definition conn0 : conn := mkConn 0 0 Fresh false false false false [] [] [].
 
-Definition with_cstate (x : conn) v := mkConn (eid x) (ver x) v (cancelled x) (closed x) (inserted x) (pq x) (mq x) (got x).
-Definition with_cancelled (x : conn) v := mkConn (eid x) (ver x) (cstate x) v (closed x) (inserted x) (pq x) (mq x) (got x).
-Definition with_closed (x : conn) v := mkConn (eid x) (ver x) (cstate x) (cancelled x) v (inserted x) (pq x) (mq x) (got x).
-Definition with_inserted (x : conn) v := mkConn (eid x) (ver x) (cstate x) (cancelled x) (closed x) v (pq x) (mq x) (got x).
-Definition with_pq (x : conn) v := mkConn (eid x) (ver x) (cstate x) (cancelled x) (closed x) (inserted x) v (mq x) (got x).
-Definition with_mq (x : conn) v := mkConn (eid x) (ver x) (cstate x) (cancelled x) (closed x) (inserted x) (pq x) v (got x).
-Definition with_pq_got (x : conn) q g := mkConn (eid x) (ver x) (cstate x) (cancelled x) (closed x) (inserted x) q (mq x) g.
-Definition with_mq_got (x : conn) q g := mkConn (eid x) (ver x) (cstate x) (cancelled x) (closed x) (inserted x) (pq x) q g.
+Definition with_cstate (x : conn) v := mkConn (eid x) (ver x) v (cancelled x) (closed x) (inserted x) (taken x) (pq x) (mq x) (got x).
+Definition with_cancelled (x : conn) v := mkConn (eid x) (ver x) (cstate x) v (closed x) (inserted x) (taken x) (pq x) (mq x) (got x).
+Definition with_closed (x : conn) v := mkConn (eid x) (ver x) (cstate x) (cancelled x) v (inserted x) (taken x) (pq x) (mq x) (got x).
+Definition with_inserted (x : conn) v := mkConn (eid x) (ver x) (cstate x) (cancelled x) (closed x) v (taken x) (pq x) (mq x) (got x).
+Definition with_taken (x : conn) v := mkConn (eid x) (ver x) (cstate x) (cancelled x) (closed x) (inserted x) v (pq x) (mq x) (got x).
+Definition with_pq (x : conn) v := mkConn (eid x) (ver x) (cstate x) (cancelled x) (closed x) (inserted x) (taken x) v (mq x) (got x).
+Definition with_mq (x : conn) v := mkConn (eid x) (ver x) (cstate x) (cancelled x) (closed x) (inserted x) (taken x) (pq x) v (got x).
+Definition with_pq_got (x : conn) q g := mkConn (eid x) (ver x) (cstate x) (cancelled x) (closed x) (inserted x) (taken x) q (mq x) g.
+Definition with_mq_got (x : conn) q g := mkConn (eid x) (ver x) (cstate x) (cancelled x) (closed x) (inserted x) (taken x) (pq x) q g.
 
 Definition fupd {A} (f : N -> A) (k : N) (v : A) : N -> A := fun x => if x =? k then v else f x.
 
@@ -123,7 +125,12 @@ Inductive event :=
 | Notify (k : N)            (* one peer-gone notice of the loop after the lock       clients.rs:149-168 *)
 | Send (s d tag : N)        (* actor s handles a datagram frame: send_packet         clients.rs:200-234 *)
 | Deliver (c : N) (pkt : bool)  (* actor c takes one queued packet / message and writes it  client.rs:410-423 *)
-| Disconnect (id : N) (o : option N).  (* Clients::disconnect                         clients.rs:181-197 *)
+| Disconnect (id : N) (o : option N)   (* Clients::disconnect                         clients.rs:181-197 *)
+| ShutTake (id : N)         (* Clients::shutdown: `self.0.clients.remove(&k)` — the entry of id is taken out of
+                               the map and handed to the shutdown future; nothing else is touched (no sent_to,
+                               no peer-gone notice)                                  clients.rs:62-67 *)
+| ShutStop (c : N).         (* ClientState::shutdown_all -> Client::shutdown -> start_shutdown of a connection
+                               of a taken entry (then the handle is awaited)        clients.rs:46-53, client.rs:184-192 *)
 
 (* [locked]: whether register holds the map entry (shard lock) from before the actor
    is spawned until the entry update.  true is the code as it is now (after the fix
@@ -133,7 +140,7 @@ Definition step (locked : bool) (s : state) (e : event) : option state :=
   match e with
   | Spawn id v =>
       let c := nconns s in
-      Some (mkSt (fupd (conns s) c (mkConn id v Running false false false [] [] []))
+      Some (mkSt (fupd (conns s) c (mkConn id v Running false false false false [] [] []))
                  (c + 1) (reg s) (sent s) (pending s) (order s) (cap s))
   | Insert c =>
       let x := conns s c in
@@ -217,6 +224,15 @@ Definition step (locked : bool) (s : state) (e : event) : option state :=
       | Some c => if existsb (N.eqb c) (reg s id) then Some (cancel s c) else Some s
       | None => Some (fold_left cancel (reg s id) s)
       end
+  | ShutTake id =>
+      (* the ClientState leaves the map; its connections' actors keep running until stopped,
+         and each still calls unregister when it ends: a STALE unregister (no entry, or a new
+         entry of a reconnected endpoint that does not contain it) *)
+      let l := reg s id in
+      Some (mkSt (fun c => if existsb (N.eqb c) l then with_taken (conns s c) true else conns s c)
+                 (nconns s) (fupd (reg s) id []) (sent s) (pending s) (order s) (cap s))
+  | ShutStop c =>
+      if taken (conns s c) then Some (cancel s c) else None
   end.
 
 (* return value of Clients::disconnect *)
@@ -241,7 +257,8 @@ Fixpoint run (locked : bool) (s : state) (tr : list event) : option state :=
    until OInsert. *)
 Inductive op :=
 | OSpawn (id v : N) | OInsert (c : N) | OReg (id v : N) | OClose (c : N)
-| OUnreg (c : N) | OSend (s d tag : N) | ODisc (id : N) (o : option N).
+| OUnreg (c : N) | OSend (s d tag : N) | ODisc (id : N) (o : option N)
+| OShut.   (* Clients::shutdown is started: every entry is taken, every taken connection stopped *)
 
 Definition locked_register : bool := true.
 
@@ -280,6 +297,14 @@ Fixpoint notify_all (fuel : nat) (s : state) : state :=
 
 Definition unregister_full (s : state) (c : N) : state :=
   let s1 := doev s (Unregister c) in notify_all (length (pending s1)) s1.
+
+Definition ids : list N := [0; 1; 2; 3].
+
+(* Clients::shutdown up to its first await: every entry is removed from the map, then every
+   connection of the removed entries is told to stop *)
+Definition shut_all (s : state) : state :=
+  fold_left (fun s c => doev s (ShutStop c)) (flat_map (reg s) ids)
+            (fold_left (fun s id => doev s (ShutTake id)) ids s).
 
 (* win: the connection whose register is parked between spawn and insert;
    deferred: an actor released towards unregister that is blocked on the map lock
@@ -346,6 +371,11 @@ Definition exec_op (ss : sstate) (o : op) : sstate * N :=
                     if disc_ret s id o then 2 else 1)
               else skip ss
           end
+      | OShut =>
+          match win ss with
+          | Some _ => skip ss      (* the parked register holds a shard lock: shutdown would block *)
+          | None => (mkSS (settle (shut_all s)) None None, 1)
+          end
       end
   end.
 
@@ -356,8 +386,6 @@ Record obs := mkObs {
   o_snap : option (list (N * N * list N));    (* registry (id, active, inactive in Vec order); None inside the window *)
   o_news : list (N * list frame)              (* frames that reached each client during this operation *)
 }.
-
-Definition ids : list N := [0; 1; 2; 3].
 
 Definition snapshot (s : state) : list (N * N * list N) :=
   flat_map (fun id => match reg s id with [] => [] | a :: rest => [(id, a, rev rest)] end) ids.
@@ -432,7 +460,8 @@ Definition stack_of_snap (snap : list (N * N * list N)) (id : N) : list N :=
   end.
 
 Definition expected_stack (s : state) (states : list N) (id : N) : list N :=
-  filter (fun c => (eid (conns s c) =? id) && negb (nth (N.to_nat c) states 2 =? 2)) (order s).
+  filter (fun c => (eid (conns s c) =? id) && negb (taken (conns s c)) &&
+                   negb (nth (N.to_nat c) states 2 =? 2)) (order s).
 
 Definition registry_ok (s : state) (ob : obs) : bool :=
   match o_snap ob with
@@ -471,7 +500,8 @@ Definition gone_only_after_last (s1 : state) (ob : obs) : bool :=
    a running connection's queue is empty between operations) *)
 Definition gone_delivered (s0 s1 : state) (ob : obs) : bool :=
   forallb (fun x =>
-    if negb (is_nil (reg s0 x)) && is_nil (obs_stack s1 ob x) then
+    if negb (is_nil (reg s0 x)) && forallb (fun c => negb (taken (conns s1 c))) (reg s0 x) &&
+       is_nil (obs_stack s1 ob x) then
       forallb (fun p =>
         match obs_stack s1 ob p with
         | a :: _ =>
@@ -504,9 +534,16 @@ Definition healthy_told (s0 s1 : state) (ob : obs) : bool :=
     | _, _ => true
     end) ids.
 
+(* a connection is served as long as it is open: every connection that is observed NOT running
+   (its actor left its loop, or its client saw the end of the stream) is one whose client end
+   closed or that a disconnect / shutdown request (or a send that found it closed) named —
+   which of the two is a function of the script *)
+Definition ends_explained (s1 : state) (ob : obs) : bool :=
+  forallb (fun c => obs_running ob c || cancelled (conns s1 c) || closed (conns s1 c)) (crange s1).
+
 Definition step_ok (s0 s1 : state) (ob : obs) : bool :=
   registry_ok s1 ob && gone_only_after_last s1 ob && gone_delivered s0 s1 ob &&
-  took_over_told s0 s1 ob && healthy_told s0 s1 ob.
+  took_over_told s0 s1 ob && healthy_told s0 s1 ob && ends_explained s1 ob.
 
 Fixpoint monitor_steps (ss0 : sstate) (tr : list (sstate * obs)) (os : list obs) : bool :=
   match tr, os with
@@ -526,7 +563,8 @@ Definition known (i : input) : N := 0.
 
 (* Branch tag: 0 trivial (no two connections of one endpoint ever registered together);
    1 duplicates without a paused register; 2 a register window with an actor exit inside;
-   3 an unregister requested inside the window (the racing schedule). *)
+   3 an unregister requested inside the window (the racing schedule);
+   4 a stale unregister: of a connection whose entry Clients::shutdown had taken out of the map. *)
 Definition has_dup (tr : list (sstate * obs)) : bool :=
   existsb (fun p => existsb (fun id => 1 <? len (reg (st (fst p)) id)) ids) tr.
 Fixpoint window_tag (ss : sstate) (l : list op) : N :=
@@ -541,8 +579,13 @@ Fixpoint window_tag (ss : sstate) (l : list op) : N :=
         end in
       N.max here (window_tag (fst (exec_op ss o)) rest)
   end.
+(* a stale unregister happened: a connection taken out of the map by shutdown has unregistered *)
+Definition has_stale (tr : list (sstate * obs)) : bool :=
+  existsb (fun p => let s := st (fst p) in
+                    existsb (fun c => taken (conns s c) && is_done (cstate (conns s c))) (crange s)) tr.
 Definition tag (i : input) : N :=
   let w := window_tag (mkSS (init (fst i)) None None) (snd i) in
+  if has_stale (trace i) then 4 else
   if 2 <=? w then w else if has_dup (trace i) then 1 else 0.
 
 Definition judge (i : input) (o : output) : bool * bool * N * N :=
